@@ -13,7 +13,22 @@ from .. import strategies as S
 from .. import kd
 
 ID = "C18"
+
+
+def _f_g02(R, x):
+    return (R * x).grade(0, 2)
+
+
+def _f_g13(R, x):
+    return (R * x).grade(1, 3)
+
+
+def _f_g1(R, x):
+    return (x * R).grade(1) + x.grade(1)
+
+
 PROGRAMS = {
+    "(R*x).grade(0,2)": (1, _f_g02), "(R*x).grade(1,3)": (1, _f_g13), "(x*R).grade(1)+x.grade(1)": (1, _f_g1),
     "R*x": (1, lambda R, x: R * x), "x*R": (1, lambda R, x: x * R), "R>>x": (1, lambda R, x: R >> x),
     "R.cp(x)": (1, lambda R, x: R.cp(x)), "R|x": (1, lambda R, x: R | x), "R^x": (1, lambda R, x: R ^ x),
     "R&x": (1, lambda R, x: R & x), "~x": (0, lambda x: ~x), "x.dual()": (0, lambda x: x.dual()),
@@ -185,6 +200,11 @@ def _expr(case):
     nother, fn = PROGRAMS[prog]
     if prog == "sw(R,x)":
         fn = alg.sw
+    registered = False
+    if getattr(fn, "__name__", "").startswith("_f_g") and (len(case["x"]["keys"]) + d) % 2 == 0:
+        # the documented use: a compiled (registered) function handed to expr_as_matrix
+        fn = alg.register(fn)
+        registered = True
     if prog == "x.dual()" and cfg["sig"].count(0) > 1:
         return Info(False, ["kind:expr", "skipped:dual-undefined"], None)
     x = alg.multivector(name="x", keys=tuple(case["x"]["keys"]))
@@ -207,7 +227,7 @@ def _expr(case):
             arr = np.array([[float(frac(v)) + 0.5 * t for t in range(3)] for v in o["vals"]])
             others.append(kd.mk_raw(alg, keys, arr))
     res_like = None
-    labels = ["kind:expr", f"prog:{prog}", f"d:{d}"] + [f"other:{k}" for k in case["okinds"]]
+    labels = ["kind:expr", f"prog:{prog}", f"d:{d}"] + [f"other:{k}" for k in case["okinds"]] + (["registered-function"] if registered else [])
     arrays = "array" in case["okinds"]
     try:
         # array-valued inputs cannot be multiplied with a symbolic x directly (that is what expr_as_matrix works around);
